@@ -50,7 +50,13 @@
 #include "stir/ExamInfo.h"
 #include "stir/Bin.h"
 #include "stir/IO/read_from_file.h"
+#include "stir/IO/write_to_file.h"
+#include "stir/recon_buildblock/BinNormalisationFromProjData.h"
+#include "stir/recon_buildblock/TrivialBinNormalisation.h"
+#include "stir/SeparableConvolutionImageFilter.h"
+#include "stir/DataProcessor.h"
 #include <algorithm>
+#include <array>
 #include <cmath>
 #include <cstring>
 #include <map>
@@ -94,6 +100,8 @@ unflat(T& im, const V& v)
 
 struct RecObj : public PoissonLogLikelihoodWithLinearModelForMeanAndProjData<T>
 {
+  // the one switch without public setter (parsing key `use time-of-flight sensitivities`)
+  void set_use_tofsens(bool b) { this->use_tofsens = b; }
   void compute_sub_gradient(T& gradient, const T& current_estimate, const int subset_num) override
   {
     PoissonLogLikelihoodWithLinearModelForMeanAndProjData<T>::compute_sub_gradient(gradient, current_estimate, subset_num);
@@ -153,6 +161,14 @@ struct Probe : public OSSPSReconstruction<T>
   }
   int default_ep() const { return this->enforce_initial_positivity; }
   void use_denominator_of_ones() { this->precomputed_denominator_filename = "1"; }
+  void use_denominator_file(const std::string& f) { this->precomputed_denominator_filename = f; }
+  // image after end_of_iteration_processing (inter-iteration / post filter applied) of every sub-iteration
+  std::vector<V> finals;
+  void end_of_iteration_processing(T& cur) override
+  {
+    OSSPSReconstruction<T>::end_of_iteration_processing(cur);
+    finals.push_back(flat(cur));
+  }
   void configure(float alpha, float gamma, double ub, int ep)
   {
     this->relaxation_parameter = alpha;
@@ -164,7 +180,9 @@ struct Probe : public OSSPSReconstruction<T>
   {
     StepRec r;
     r.k = this->subiteration_num;
-    r.subset = this->get_subset_num();
+    // with a randomised order get_subset_num() draws a new permutation at the start of a full iteration: do not disturb it,
+    // the subset is the one compute_sub_gradient is called with
+    r.subset = this->randomise_subset_order ? -1 : this->get_subset_num();
     r.before = flat(cur);
     g_cur = &r;
     try
@@ -178,6 +196,10 @@ struct Probe : public OSSPSReconstruction<T>
       }
     g_cur = nullptr;
     r.after = flat(cur);
+    if (this->randomise_subset_order && r.have_g)
+      r.subset = r.g_subset;
+    if (!r.have_g && r.subset < 0)
+      r.subset = 0;
     if (!r.have_g)
       {
         // update_estimate did not go through the (recorded) virtual calls — e.g. after a refactoring.  Ask the objective
@@ -269,6 +291,18 @@ struct Case
   bool kappa = false, additive = false;
   bool denom_ones = false; // `precomputed denominator := 1`
   int weights_kind = 0; // 0 default 3D, 1 default 2D (only_2D), 2 custom random 3x3x3, 3 custom 1x3x3
+  // --- objective function configuration
+  bool norm = false;        // BinNormalisationFromProjData with random factors (non-TOF normalisation data)
+  int tofbins = 0;          // 0: non-TOF scanner; otherwise max number of TOF bins of the scanner
+  int tofmash = 1;
+  bool tofsens = false;     // `use time-of-flight sensitivities`
+  bool zero_ends = false;   // zero_seg0_end_planes
+  bool subset_sens = true;  // use_subset_sensitivities
+  // --- reconstruction configuration
+  bool randomise = false;   // randomise_subset_order
+  int filt = 0;             // inter-iteration filter: 0 none, 1 smoothing {1/4,1/2,1/4} in x and y, 2 sharpening {-1/8,5/4,-1/8} in x and y
+  int filt_interval = 0;    // inter-iteration filter subiteration interval
+  int postfilt = 0;         // post filter, same kinds
   uint64_t data_seed = 1;
   std::string prefix;
 };
@@ -279,7 +313,7 @@ struct Built
   shared_ptr<ProjDataInfo> pdi;
   shared_ptr<VoxelsOnCartesianGrid<float>> img;
   shared_ptr<ExamInfo> ei;
-  shared_ptr<ProjDataInMemory> y, a;
+  shared_ptr<ProjDataInMemory> y, a, normdata;
   shared_ptr<T> kappa;
   Array<3, float> weights;
   V init;
@@ -288,8 +322,8 @@ struct Built
 static void
 build_data(const Case& c, Built& b)
 {
-  b.scanner = vh::make_scanner(c.ndet, c.nrings);
-  b.pdi = vh::make_pdi(b.scanner, 1, c.maxdelta, c.ndet / 2, c.ntang);
+  b.scanner = vh::make_scanner(c.ndet, c.nrings, c.tofbins > 0 ? c.tofbins : -1);
+  b.pdi = vh::make_pdi(b.scanner, 1, c.maxdelta, c.ndet / 2, c.ntang, false, c.tofbins > 0 ? c.tofmash : 0);
   // image grid as VoxelsOnCartesianGrid(proj_data_info, zoom, ...) lays it out (z: one plane per ring and per gap, x/y centred),
   // but with a transaxial voxel size that is a multiple of 0.25 mm: the Interfile header written with the saved iterates
   // keeps 6 significant digits, so only such grids are reproduced exactly by the resumed run's set_up.
@@ -309,9 +343,10 @@ build_data(const Case& c, Built& b)
     b.a.reset(new ProjDataInMemory(b.ei, b.pdi));
   const int scale_kind = rng.range(0, 2);
   for (int s = b.pdi->get_min_segment_num(); s <= b.pdi->get_max_segment_num(); ++s)
+   for (int tof = b.pdi->get_min_tof_pos_num(); tof <= b.pdi->get_max_tof_pos_num(); ++tof)
     for (int v = b.pdi->get_min_view_num(); v <= b.pdi->get_max_view_num(); ++v)
       {
-        Viewgram<float> vg = b.y->get_empty_viewgram(v, s);
+        Viewgram<float> vg = b.y->get_empty_viewgram(v, s, false, tof);
         for (auto it = vg.begin_all(); it != vg.end_all(); ++it)
           {
             const int r = rng.range(0, 11);
@@ -325,12 +360,27 @@ build_data(const Case& c, Built& b)
         b.y->set_viewgram(vg);
         if (c.additive)
           {
-            Viewgram<float> va = b.a->get_empty_viewgram(v, s);
+            Viewgram<float> va = b.a->get_empty_viewgram(v, s, false, tof);
             for (auto it = va.begin_all(); it != va.end_all(); ++it)
               *it = static_cast<float>(rng.range(1, 40)) / 16.F;
             b.a->set_viewgram(va);
           }
       }
+  if (c.norm)
+    {
+      // normalisation factors in [0.5, 2.5] (multiples of 1/8), independent of the TOF bin: non-TOF normalisation data serve TOF
+      // emission data and the non-TOF sensitivity alike
+      shared_ptr<ProjDataInfo> npdi = b.pdi->create_non_tof_clone();
+      b.normdata.reset(new ProjDataInMemory(b.ei, npdi));
+      for (int s = npdi->get_min_segment_num(); s <= npdi->get_max_segment_num(); ++s)
+        for (int v = npdi->get_min_view_num(); v <= npdi->get_max_view_num(); ++v)
+          {
+            Viewgram<float> vn = b.normdata->get_empty_viewgram(v, s);
+            for (auto it = vn.begin_all(); it != vn.end_all(); ++it)
+              *it = static_cast<float>(rng.range(4, 20)) / 8.F;
+            b.normdata->set_viewgram(vn);
+          }
+    }
   // start image: mostly in (0,2], some exact zeros, rarely a negative value
   shared_ptr<T> t(b.img->get_empty_copy());
   for (auto it = t->begin_all(); it != t->end_all(); ++it)
@@ -369,14 +419,18 @@ build_data(const Case& c, Built& b)
 
 // ---------------------------------------------------------------------------------------------- the property's definitions
 // Evaluated directly (double precision) from the explicit system matrix, the data and the prior's parameters:
-//   grad_S Phi(x)_j = sum_{b in S} P_bj ( y_b / (P x + a)_b - 1 ) - (beta / N) sum_d w_d kappa_j kappa_{j+d} (x_j - x_{j+d})
-//   (-H 1)_j        = sum_b P_bj (P 1)_b / y_b
+//   grad_S Phi(x)_j = sum_{b in S} P_bj ( y_b / (P x + a)_b - 1/n_b ) - (beta / N) sum_d w_d kappa_j kappa_{j+d} (x_j - x_{j+d})
+//   (-H 1)_j        = sum_b P_bj (P 1)_b / (n_b^2 y_b)
 //   curvature_j     = beta sum_d w_d kappa_j kappa_{j+d}
+// (mean of bin b: ((P x)_b + a_b) / n_b, n_b the normalisation factor; b runs over all TOF bins; with zero_seg0_end_planes the
+// bins of the first and last axial position of segment 0 are not part of the objective function)
 // with the library's quotient conventions (numerator <= 1e-6 * max of its viewgram -> 0; quotient capped at 10000).
 struct RowD
 {
   int vg, subset;
   double y, a;
+  double n = 1.;       // normalisation factor
+  bool zeroed = false; // end plane of segment 0 with zero_seg0_end_planes
   std::vector<std::pair<int, double>> el;
 };
 struct Defs
@@ -404,10 +458,11 @@ struct Defs
     mag.assign(n, 0.);
     std::vector<double> ymax(nvg, 0.);
     for (auto& r : rows)
-      ymax[r.vg] = std::max(ymax[r.vg], r.y);
+      if (!r.zeroed)
+        ymax[r.vg] = std::max(ymax[r.vg], r.y);
     for (auto& r : rows)
       {
-        if (r.subset != subset)
+        if (r.subset != subset || r.zeroed)
           continue;
         double den = r.a, mden = std::fabs(r.a);
         for (auto& e : r.el)
@@ -419,8 +474,8 @@ struct Defs
         const double amp = den != 0 ? mden / std::fabs(den) : 1.;
         for (auto& e : r.el)
           {
-            g[e.first] += e.second * (q - 1.);
-            mag[e.first] += e.second * (q * amp + 1.);
+            g[e.first] += e.second * (q - 1. / r.n);
+            mag[e.first] += e.second * (q * amp + 1. / r.n);
           }
       }
     if (have_prior && beta != 0)
@@ -444,7 +499,8 @@ struct Defs
               mag[j] += std::fabs(beta) * pm / nsub;
             }
   }
-  void d0(std::size_t n, std::vector<double>& d) const
+  // include_zeroed: as the library computes it (the Hessian functions read the viewgrams directly)
+  void d0(std::size_t n, std::vector<double>& d, bool include_zeroed = false) const
   {
     d.assign(n, 0.);
     std::vector<double> fmax(nvg, 0.), f1(rows.size(), 0.);
@@ -458,7 +514,9 @@ struct Defs
       {
         if (rows[i].subset < 0 || rows[i].subset >= nsub)
           continue;
-        const double q = quotient(std::max(fmax[rows[i].vg] * 1e-6, 0.), f1[i], rows[i].y);
+        if (rows[i].zeroed && !include_zeroed)
+          continue;
+        const double q = quotient(std::max(fmax[rows[i].vg] * 1e-6, 0.), f1[i], rows[i].y * rows[i].n * rows[i].n);
         for (auto& e : rows[i].el)
           d[e.first] += e.second * q;
       }
@@ -496,6 +554,33 @@ struct Engine
   shared_ptr<Probe> rec;
 };
 
+// the filter kinds of Case::filt / Case::postfilt: a real SeparableConvolutionImageFilter, 3 taps in y and in x, none in z
+static void
+filter_taps(int kind, float& side, float& centre)
+{
+  side = kind == 1 ? 0.25F : -0.125F;
+  centre = kind == 1 ? 0.5F : 1.25F;
+}
+static shared_ptr<DataProcessor<T>>
+make_filter(int kind)
+{
+  if (kind == 0)
+    return shared_ptr<DataProcessor<T>>();
+  float side, centre;
+  filter_taps(kind, side, centre);
+  VectorWithOffset<VectorWithOffset<float>> k(3);
+  k[0] = VectorWithOffset<float>(0, 0);
+  k[0][0] = 1.F;
+  for (int d = 1; d <= 2; ++d)
+    {
+      k[d] = VectorWithOffset<float>(-1, 1);
+      k[d][-1] = side;
+      k[d][0] = centre;
+      k[d][1] = side;
+    }
+  return shared_ptr<DataProcessor<T>>(new SeparableConvolutionImageFilter<float>(k));
+}
+
 static Engine
 make_engine(const Case& c, const Built& b, int start_subiter, int ep, const std::string& prefix)
 {
@@ -511,9 +596,13 @@ make_engine(const Case& c, const Built& b, int start_subiter, int ep, const std:
   e.obj.reset(new RecObj);
   e.obj->set_proj_data_sptr(b.y);
   e.obj->set_projector_pair_sptr(e.pp);
-  e.obj->set_use_subset_sensitivities(true);
+  e.obj->set_use_subset_sensitivities(c.subset_sens);
   if (c.additive)
     e.obj->set_additive_proj_data_sptr(b.a);
+  if (c.norm)
+    e.obj->set_normalisation_sptr(shared_ptr<BinNormalisation>(new BinNormalisationFromProjData(b.normdata)));
+  e.obj->set_zero_seg0_end_planes(c.zero_ends);
+  e.obj->set_use_tofsens(c.tofsens);
   if (c.prior == 1 || c.prior == 2)
     {
       e.qprior.reset(new RecPrior(c.weights_kind == 1, c.beta, c.prior == 2));
@@ -539,6 +628,14 @@ make_engine(const Case& c, const Built& b, int start_subiter, int ep, const std:
   e.rec->set_start_subiteration_num(start_subiter);
   e.rec->set_save_interval(1);
   e.rec->set_output_filename_prefix(prefix);
+  e.rec->set_randomise_subset_order(c.randomise);
+  if (c.filt)
+    {
+      e.rec->set_inter_iteration_filter_ptr(make_filter(c.filt));
+      e.rec->set_inter_iteration_filter_interval(c.filt_interval);
+    }
+  if (c.postfilt)
+    e.rec->set_post_processor_sptr(make_filter(c.postfilt));
   return e;
 }
 
@@ -566,6 +663,8 @@ cfg_line(const Case& c, const Built& b, int nvg)
   s << "cfg " << c.id << " dims " << nz << " " << c.nxy << " " << c.nxy << " ns " << c.nsub << " ss " << c.start_subset << " alpha "
     << vh::hex(c.alpha) << " gamma " << vh::hex(c.gamma) << " ub " << vh::hex(static_cast<float>(c.ub)) << " prior " << pk
     << " beta " << vh::hex(c.beta) << " kappa " << (c.kappa ? 1 : 0) << " add " << (c.additive ? 1 : 0) << " nvg " << nvg << " dones " << (c.denom_ones ? 1 : 0)
+    << " norm " << (c.norm ? 1 : 0) << " tof " << b.pdi->get_num_tof_poss() << " tofsens " << (c.tofsens ? 1 : 0) << " zero " << (c.zero_ends ? 1 : 0)
+    << " subsens " << (c.subset_sens ? 1 : 0) << " rand " << (c.randomise ? 1 : 0) << " filt " << c.filt << " " << c.filt_interval << " " << c.postfilt
     << " geom "
     << c.ndet << "," << c.nrings << "," << c.maxdelta << "," << c.ntang << "," << vh::hex(c.voxel) << "," << (c.restrict_fov ? 1 : 0) << ","
     << c.sym90 << c.sym180 << c.symswapseg << c.symswaps << c.symz << "," << c.weights_kind << "," << c.data_seed;
@@ -579,9 +678,12 @@ struct RunState
   bool haveD = false;
 };
 
+static std::map<std::string, long> hist;
+
+// `fin`: the image after end_of_iteration_processing of this sub-iteration (inter-iteration / post filter applied), or null
 static void
 emit_step(const Case& c, const StepRec& r, const V& d0, int start, bool levelB, bool prior_nonzero, RunState& rs, const V& sens0mask,
-          const Defs& defs)
+          const Defs& defs, const V* fin = nullptr)
 {
   const std::size_t n = r.before.size();
   const float ubf = static_cast<float>(c.ub);
@@ -606,8 +708,13 @@ emit_step(const Case& c, const StepRec& r, const V& d0, int start, bool levelB, 
       if (r.have_c)
         op("curv | " + hv(r.cx), hv(r.c));
     }
-  op("step " + std::to_string(r.k) + " | " + hv(r.before) + " | " + hv(g) + " | " + (r.have_c ? hv(r.c) : std::string("-")),
+  // with a randomised subset order the subset is the implementation's choice (data for the model)
+  op("step " + std::to_string(r.k) + " | " + hv(r.before) + " | " + hv(g) + " | " + (r.have_c ? hv(r.c) : std::string("-"))
+         + (c.randomise ? " | " + std::to_string(r.subset) : std::string()),
      std::to_string(r.subset) + " | " + hv(r.after));
+  if ((c.filt || c.postfilt) && fin)
+    // what end_of_iteration_processing made of it (filters applied according to interval / last sub-iteration): the iterate
+    op("endit " + std::to_string(r.k) + " | " + hv(r.after), hv(*fin));
 
   // ---- oracle: the property's statement on the implementation
   // (1) bounds
@@ -618,6 +725,30 @@ emit_step(const Case& c, const StepRec& r, const V& d0, int start, bool levelB, 
         ofail("iterate outside [0, upper bound]: voxel " + std::to_string(j) + " value " + vh::hex(r.after[j]) + " ub " + vh::hex(ubf));
         break;
       }
+  // (1b) ... and after the inter-iteration / post filter, when these map [0, ub] into itself (non-negative taps of sum <= 1;
+  //      the generated taps are dyadic, so this holds in float arithmetic too).  A sharpening filter (negative side lobes) is applied
+  //      AFTER the clamp and nothing clamps again: OSSPS then hands out iterates outside the bounds; this is recorded, not judged
+  //      (filters are not in the property's quantifier; the model follows the code: Model.endOfIteration).
+  if (fin)
+    {
+      const bool applied_inter = c.filt && c.filt_interval > 0 && r.k % c.filt_interval == 0;
+      const bool applied_post = c.postfilt && r.k == c.nsubiter;
+      const bool preserving = (!applied_inter || c.filt == 1) && (!applied_post || c.postfilt == 1);
+      bool inside = true;
+      for (std::size_t j = 0; j < n; ++j)
+        if (!((*fin)[j] >= 0.F && (*fin)[j] <= ubf))
+          inside = false;
+      if (preserving)
+        {
+          ++oracle_checks;
+          if (!inside)
+            ofail("iterate after the (bound preserving) inter-iteration / post filter outside [0, upper bound]");
+        }
+      else if (!inside)
+        hist["iterates_outside_bounds_after_sharpening_filter"]++;
+      if (applied_inter || applied_post)
+        hist["filtered_iterates"]++;
+    }
   // (2) the gradient is taken at the current image (non-identifiable voxels zeroed at the start of every sub-iteration), of the
   //     subset the schedule prescribes
   ++oracle_checks;
@@ -628,7 +759,7 @@ emit_step(const Case& c, const StepRec& r, const V& d0, int start, bool levelB, 
           expect[j] = 0.F;
     if (!same_bits(expect, gx))
       ofail("sub-gradient was not evaluated at the current image estimate");
-    if (r.g_subset != r.subset || r.g_calls != 1)
+    if ((!c.randomise && r.g_subset != r.subset) || r.g_calls != 1)
       ofail("sub-gradient evaluated for subset " + std::to_string(r.g_subset) + " (" + std::to_string(r.g_calls)
             + " calls) but the schedule gives subset " + std::to_string(r.subset));
   }
@@ -766,9 +897,66 @@ file_exists(const std::string& f)
 
 static int g_default_ep = 0;
 static long n_cases = 0, n_steps = 0, n_restarts = 0, n_restart_equal = 0, n_setup_err = 0;
-static std::map<std::string, long> hist;
 
-// returns false if the configuration is not legal for STIR (set_up fails / throws): nothing is emitted then
+// characteristics of an image as has_same_characteristics compares them: origin (z,y,x), regular index range, grid spacing
+static std::string
+chars_of(const T& im)
+{
+  const VoxelsOnCartesianGrid<float>& v = dynamic_cast<const VoxelsOnCartesianGrid<float>&>(im);
+  BasicCoordinate<3, int> lo, hi;
+  v.get_index_range().get_regular_range(lo, hi);
+  std::ostringstream s;
+  s << vh::hex(v.get_origin()[1]) << " " << vh::hex(v.get_origin()[2]) << " " << vh::hex(v.get_origin()[3]) << " " << lo[1] << " " << hi[1] << " "
+    << lo[2] << " " << hi[2] << " " << lo[3] << " " << hi[3] << " " << vh::hex(v.get_grid_spacing()[1]) << " " << vh::hex(v.get_grid_spacing()[2])
+    << " " << vh::hex(v.get_grid_spacing()[3]);
+  return s.str();
+}
+
+// emit the `endrun` line and check the saved files of a run against the images end_of_iteration_processing left
+static void
+check_saved(const Case& c, const std::string& prefix, int first_k, const std::vector<V>& finals)
+{
+  for (std::size_t m = 0; m < finals.size(); ++m)
+    {
+      const int k = first_k + static_cast<int>(m);
+      const std::string f = prefix + "_" + std::to_string(k) + ".hv";
+      ++oracle_checks;
+      if (!file_exists(f))
+        {
+          ofail("iterate " + std::to_string(k) + " was not saved");
+          continue;
+        }
+      if (!same_bits(flat(*read_from_file<T>(f)), finals[m]))
+        ofail("saved iterate " + std::to_string(k) + " differs from the in-memory iterate");
+    }
+}
+
+// with a randomised order: within every full iteration that the run covers completely the subsets used are a permutation
+static void
+check_permutations(const Case& c, const std::vector<StepRec>& steps)
+{
+  std::map<int, std::vector<int>> per_iter;
+  for (auto& r : steps)
+    per_iter[(r.k - 1) / c.nsub].push_back(r.subset);
+  for (auto& kv : per_iter)
+    {
+      if (static_cast<int>(kv.second.size()) != c.nsub)
+        continue;
+      ++oracle_checks;
+      std::vector<int> s = kv.second;
+      std::sort(s.begin(), s.end());
+      bool okp = true;
+      for (int i = 0; i < c.nsub; ++i)
+        if (s[i] != i)
+          okp = false;
+      if (!okp)
+        ofail("randomised subset order: the subsets of full iteration " + std::to_string(kv.first) + " are not a permutation of 0.."
+              + std::to_string(c.nsub - 1));
+      hist["randomised_full_iterations"]++;
+    }
+}
+
+// (always returns true: a refusal by set_up is either expected and emitted, or an oracle failure)
 static bool
 run_case(Case c, bool levelB, bool restarts, bool expect_err)
 {
@@ -787,24 +975,29 @@ run_case(Case c, bool levelB, bool restarts, bool expect_err)
     {
       ok = false;
     }
-  if (!ok && !expect_err)
-    return false;
   {
     std::ostringstream s;
     s << "seed-case " << c.id;
     g_ctx = s.str();
   }
   // ---- describe the problem to the model
-  // view/segment -> subset through the library's own subset assignment
+  // A matrix object of our own with the same switches (the engine's own is only set up once the objective function's set_up got
+  // that far): rows, symmetries, subset of every view/segment through the library's own subset assignment.
+  Engine q;
   std::map<std::pair<int, int>, int> vs_subset;
-  std::map<std::pair<int, int>, int> vs_id;
+  std::map<std::array<int, 3>, int> vg_id; // (view, segment, tof) -> viewgram id
   int nvg = 0;
   for (int s = b.pdi->get_min_segment_num(); s <= b.pdi->get_max_segment_num(); ++s)
-    for (int v = b.pdi->get_min_view_num(); v <= b.pdi->get_max_view_num(); ++v)
-      vs_id[std::make_pair(v, s)] = nvg++;
-  if (ok)
+    for (int tof = b.pdi->get_min_tof_pos_num(); tof <= b.pdi->get_max_tof_pos_num(); ++tof)
+      for (int v = b.pdi->get_min_view_num(); v <= b.pdi->get_max_view_num(); ++v)
+        vg_id[{ v, s, tof }] = nvg++;
+  bool balanced = true;
+  if (ok || !expect_err)
     {
-      shared_ptr<DataSymmetriesForViewSegmentNumbers> sym(e.pp->get_symmetries_used()->clone());
+      q = make_engine(c, b, 1, c.ep, c.prefix + "_q");
+      q.pp->set_up(b.pdi, b.img);
+      shared_ptr<DataSymmetriesForViewSegmentNumbers> sym(q.pp->get_symmetries_used()->clone());
+      std::vector<int> count(c.nsub, 0);
       for (int sub = 0; sub < c.nsub; ++sub)
         {
           std::vector<ViewSegmentNumbers> basic = detail::find_basic_vs_nums_in_subset(
@@ -814,33 +1007,48 @@ run_case(Case c, bool levelB, bool restarts, bool expect_err)
               std::vector<ViewSegmentNumbers> rel;
               sym->get_related_view_segment_numbers(rel, bv);
               for (auto& rv : rel)
-                vs_subset[std::make_pair(rv.view_num(), rv.segment_num())] = sub;
+                {
+                  vs_subset[std::make_pair(rv.view_num(), rv.segment_num())] = sub;
+                  ++count[sub];
+                }
             }
         }
+      for (int sub = 1; sub < c.nsub; ++sub)
+        if (count[sub] != count[0])
+          balanced = false;
+    }
+  if (!ok && !expect_err && (c.subset_sens || balanced))
+    {
+      // the only legitimate refusal of a generated configuration: use_subset_sensitivities = false with unbalanced subsets
+      ++oracle_checks;
+      ofail("set_up refused a configuration the property quantifies over (subsets " + std::string(balanced ? "balanced" : "unbalanced")
+            + ", use_subset_sensitivities " + (c.subset_sens ? "on" : "off") + ")");
+      return true;
     }
   op(cfg_line(c, b, nvg), "ok");
-  if (!ok)
+  if (!ok && expect_err)
     {
       // error branch: set_up refuses
       op("setup 1 " + std::to_string(c.nsubiter) + " " + std::to_string(c.ep) + " | " + hv(b.init), "err");
       ++n_setup_err;
       return true;
     }
-  ++n_cases;
   const int nz = b.img->get_max_index() - b.img->get_min_index() + 1;
   const int minz = b.img->get_min_index();
   const int miny = (*b.img)[minz].get_min_index();
   const int minx = (*b.img)[minz][miny].get_min_index();
-  const bool prior_nonzero = !e.obj->prior_is_zero();
   if (c.prior == 1 || c.prior == 2)
     {
       // weights actually used by the prior (default ones are computed lazily: force them by one gradient evaluation)
+      RecPrior* pr = ok ? e.qprior.get() : q.qprior.get();
+      if (!ok)
+        pr->set_up(t);
       {
         shared_ptr<T> tmp(t->get_empty_copy());
         if (c.beta != 0)
-          e.qprior->compute_gradient(*tmp, *t);
+          pr->compute_gradient(*tmp, *t);
       }
-      Array<3, float> w = e.qprior->get_weights();
+      Array<3, float> w = pr->get_weights();
       if (w.get_length() > 0)
         {
           std::ostringstream s;
@@ -861,10 +1069,11 @@ run_case(Case c, bool levelB, bool restarts, bool expect_err)
   defs.ny = defs.nx = c.nxy;
   if (c.prior == 1 || c.prior == 2)
     {
+      RecPrior* pr = ok ? e.qprior.get() : q.qprior.get();
       defs.have_prior = true;
       defs.dep = c.prior == 2;
       defs.beta = c.beta;
-      Array<3, float> w = e.qprior->get_weights();
+      Array<3, float> w = pr->get_weights();
       if (w.get_length() > 0)
         {
           defs.wminz = w.get_min_index();
@@ -882,51 +1091,121 @@ run_case(Case c, bool levelB, bool restarts, bool expect_err)
     }
   long nrows = 0, nelems = 0;
   for (int s = b.pdi->get_min_segment_num(); s <= b.pdi->get_max_segment_num(); ++s)
-    for (int v = b.pdi->get_min_view_num(); v <= b.pdi->get_max_view_num(); ++v)
-      {
-        const Viewgram<float> yv = b.y->get_viewgram(v, s);
-        Viewgram<float> av = b.y->get_empty_viewgram(v, s);
-        if (c.additive)
-          av = b.a->get_viewgram(v, s);
-        auto itsub = vs_subset.find(std::make_pair(v, s));
-        const int sub = itsub == vs_subset.end() ? -1 : itsub->second;
-        for (int ax = b.pdi->get_min_axial_pos_num(s); ax <= b.pdi->get_max_axial_pos_num(s); ++ax)
-          for (int tp = b.pdi->get_min_tangential_pos_num(); tp <= b.pdi->get_max_tangential_pos_num(); ++tp)
+    for (int tof = b.pdi->get_min_tof_pos_num(); tof <= b.pdi->get_max_tof_pos_num(); ++tof)
+      for (int v = b.pdi->get_min_view_num(); v <= b.pdi->get_max_view_num(); ++v)
+        {
+          const Viewgram<float> yv = b.y->get_viewgram(v, s, false, tof);
+          Viewgram<float> av = b.y->get_empty_viewgram(v, s, false, tof);
+          if (c.additive)
+            av = b.a->get_viewgram(v, s, false, tof);
+          Viewgram<float> nv = b.y->get_empty_viewgram(v, s, false, tof);
+          nv.fill(1.F);
+          if (c.norm)
             {
-              ProjMatrixElemsForOneBin row;
-              e.pm->get_proj_matrix_elems_for_one_bin(row, Bin(s, v, ax, tp));
-              std::ostringstream l;
-              RowD rd;
-              rd.vg = vs_id[std::make_pair(v, s)];
-              rd.subset = sub;
-              rd.y = yv[ax][tp];
-              rd.a = av[ax][tp];
-              int nin = 0;
-              for (auto el = row.begin(); el != row.end(); ++el)
-                if (el->coord1() >= minz && el->coord1() <= b.img->get_max_index())
-                  ++nin;
-              l << "row " << vs_id[std::make_pair(v, s)] << " " << sub << " " << vh::hex(yv[ax][tp]) << " " << vh::hex(av[ax][tp]) << " "
-                << nin;
-              for (auto el = row.begin(); el != row.end(); ++el)
-                {
-                  // ProjMatrixElemsForOneBin::forward_project / back_project skip elements outside the image's plane range
-                  if (el->coord1() < minz || el->coord1() > b.img->get_max_index())
-                    {
-                      hist["matrix_elements_outside_image_planes"]++;
-                      continue;
-                    }
-                  const int j = ((el->coord1() - minz) * c.nxy + (el->coord2() - miny)) * c.nxy + (el->coord3() - minx);
-                  l << " " << j << " " << vh::hex(el->get_value());
-                  rd.el.push_back(std::make_pair(j, static_cast<double>(el->get_value())));
-                  ++nelems;
-                }
-              defs.rows.push_back(rd);
-              op(l.str(), "ok");
-              ++nrows;
+              const Viewgram<float> nn = b.normdata->get_viewgram(v, s);
+              for (int ax = nv.get_min_axial_pos_num(); ax <= nv.get_max_axial_pos_num(); ++ax)
+                for (int tp = nv.get_min_tangential_pos_num(); tp <= nv.get_max_tangential_pos_num(); ++tp)
+                  nv[ax][tp] = nn[ax][tp];
             }
-      }
+          auto itsub = vs_subset.find(std::make_pair(v, s));
+          const int sub = itsub == vs_subset.end() ? -1 : itsub->second;
+          const int vgid = vg_id[{ v, s, tof }];
+          for (int ax = b.pdi->get_min_axial_pos_num(s); ax <= b.pdi->get_max_axial_pos_num(s); ++ax)
+            for (int tp = b.pdi->get_min_tangential_pos_num(); tp <= b.pdi->get_max_tangential_pos_num(); ++tp)
+              {
+                ProjMatrixElemsForOneBin row;
+                q.pm->get_proj_matrix_elems_for_one_bin(row, Bin(s, v, ax, tp, tof));
+                std::ostringstream l;
+                RowD rd;
+                rd.vg = vgid;
+                rd.subset = sub;
+                rd.y = yv[ax][tp];
+                rd.a = av[ax][tp];
+                rd.n = nv[ax][tp];
+                rd.zeroed = c.zero_ends && s == 0 && (ax == b.pdi->get_min_axial_pos_num(0) || ax == b.pdi->get_max_axial_pos_num(0));
+                if (rd.zeroed)
+                  hist["bins_in_zeroed_end_planes"]++;
+                int nin = 0;
+                for (auto el = row.begin(); el != row.end(); ++el)
+                  if (el->coord1() >= minz && el->coord1() <= b.img->get_max_index())
+                    ++nin;
+                l << "row " << vgid << " " << sub << " " << vh::hex(yv[ax][tp]) << " " << vh::hex(av[ax][tp]) << " " << vh::hex(nv[ax][tp]) << " "
+                  << (rd.zeroed ? 1 : 0) << " " << nin;
+                for (auto el = row.begin(); el != row.end(); ++el)
+                  {
+                    // ProjMatrixElemsForOneBin::forward_project / back_project skip elements outside the image's plane range
+                    if (el->coord1() < minz || el->coord1() > b.img->get_max_index())
+                      {
+                        hist["matrix_elements_outside_image_planes"]++;
+                        continue;
+                      }
+                    const int j = ((el->coord1() - minz) * c.nxy + (el->coord2() - miny)) * c.nxy + (el->coord3() - minx);
+                    l << " " << j << " " << vh::hex(el->get_value());
+                    rd.el.push_back(std::make_pair(j, static_cast<double>(el->get_value())));
+                    ++nelems;
+                  }
+                defs.rows.push_back(rd);
+                op(l.str(), "ok");
+                ++nrows;
+              }
+        }
   hist["rows"] += nrows;
   hist["matrix_elements"] += nelems;
+  // TOF data without `use time-of-flight sensitivities`: the sensitivity (hence the set of non-identifiable voxels) comes from a
+  // clone of the back projector set up on the non-TOF geometry
+  if (b.pdi->is_tof_data() && !c.tofsens)
+    {
+      shared_ptr<ProjDataInfo> npdi = b.pdi->create_non_tof_clone();
+      Engine qs = make_engine(c, b, 1, c.ep, c.prefix + "_qs");
+      qs.pm->set_up(npdi, b.img);
+      for (int s = npdi->get_min_segment_num(); s <= npdi->get_max_segment_num(); ++s)
+        for (int v = npdi->get_min_view_num(); v <= npdi->get_max_view_num(); ++v)
+          {
+            auto itsub = vs_subset.find(std::make_pair(v, s));
+            const int sub = itsub == vs_subset.end() ? -1 : itsub->second;
+            for (int ax = npdi->get_min_axial_pos_num(s); ax <= npdi->get_max_axial_pos_num(s); ++ax)
+              for (int tp = npdi->get_min_tangential_pos_num(); tp <= npdi->get_max_tangential_pos_num(); ++tp)
+                {
+                  ProjMatrixElemsForOneBin row;
+                  qs.pm->get_proj_matrix_elems_for_one_bin(row, Bin(s, v, ax, tp));
+                  const bool zeroed
+                      = c.zero_ends && s == 0 && (ax == npdi->get_min_axial_pos_num(0) || ax == npdi->get_max_axial_pos_num(0));
+                  float nf = 1.F;
+                  if (c.norm)
+                    nf = b.normdata->get_viewgram(v, s)[ax][tp];
+                  std::ostringstream l;
+                  int nin = 0;
+                  for (auto el = row.begin(); el != row.end(); ++el)
+                    if (el->coord1() >= minz && el->coord1() <= b.img->get_max_index())
+                      ++nin;
+                  l << "srow " << sub << " " << vh::hex(nf) << " " << (zeroed ? 1 : 0) << " " << nin;
+                  for (auto el = row.begin(); el != row.end(); ++el)
+                    {
+                      if (el->coord1() < minz || el->coord1() > b.img->get_max_index())
+                        continue;
+                      const int j = ((el->coord1() - minz) * c.nxy + (el->coord2() - miny)) * c.nxy + (el->coord3() - minx);
+                      l << " " << j << " " << vh::hex(el->get_value());
+                    }
+                  op(l.str(), "ok");
+                  hist["sensitivity_rows_nonTOF"]++;
+                }
+          }
+    }
+  if (!ok)
+    {
+      // refused because the subsets are unbalanced and subset sensitivities are switched off
+      op("setup 1 " + std::to_string(c.nsubiter) + " " + std::to_string(c.ep) + " | " + hv(b.init), "err");
+      ++n_setup_err;
+      hist["refused_unbalanced_without_subset_sensitivities"]++;
+      return true;
+    }
+  ++n_cases;
+  if (!c.subset_sens)
+    {
+      // accepted without subset sensitivities: the subsets must be balanced (correspondence: the model refuses otherwise)
+      hist["use_subset_sensitivities_off"]++;
+    }
+  const bool prior_nonzero = !e.obj->prior_is_zero();
 
   // sensitivity == 0 mask
   V sens0mask;
@@ -983,8 +1262,26 @@ run_case(Case c, bool levelB, bool restarts, bool expect_err)
       for (std::size_t j = 0; j < d0.size(); ++j)
         if (!(std::fabs(dd[j] - d0[j]) <= 1e-4 * std::fabs(dd[j]) + 1e-30))
           {
-            ofail("data part of the denominator of voxel " + std::to_string(j) + " is not sum_b P_bj (P 1)_b / y_b: got " + vh::hex(d0[j])
-                  + " definition " + vh::hex(dd[j]));
+            // the one listed class: with zero_seg0_end_planes the Hessian functions read the viewgrams directly and keep the end
+            // planes of segment 0, which the objective function (value, gradient, sensitivity) excludes
+            bool is_known = false;
+            if (c.zero_ends)
+              {
+                std::vector<double> di;
+                defs.d0(d0.size(), di, true);
+                is_known = true;
+                for (std::size_t i = 0; i < d0.size(); ++i)
+                  if (!(std::fabs(di[i] - d0[i]) <= 1e-4 * std::fabs(di[i]) + 1e-30))
+                    is_known = false;
+              }
+            if (is_known)
+              known("denominator:includes-zeroed-seg0-end-planes",
+                    "with zero_seg0_end_planes = true the precomputed denominator (minus the approximate Hessian on the uniform image) "
+                    "contains the bins of the first and last axial position of segment 0, which the objective function excludes: voxel "
+                        + std::to_string(j) + " got " + vh::hex(d0[j]) + ", sum over the bins of the objective function " + vh::hex(dd[j]));
+            else
+              ofail("data part of the denominator of voxel " + std::to_string(j) + " is not sum_b P_bj (P 1)_b / (n_b^2 y_b): got "
+                    + vh::hex(d0[j]) + " definition " + vh::hex(dd[j]));
             break;
           }
     }
@@ -998,6 +1295,8 @@ run_case(Case c, bool levelB, bool restarts, bool expect_err)
   }
 
   // ---- the uninterrupted run
+  // (IterativeReconstruction::set_up seeds rand() from the clock when the subset order is randomised: re-seed it from the case)
+  std::srand(static_cast<unsigned>(c.data_seed % 1000003ULL));
   try
     {
       e.rec->reconstruct(t);
@@ -1009,42 +1308,108 @@ run_case(Case c, bool levelB, bool restarts, bool expect_err)
       return true;
     }
   std::vector<StepRec> full = e.rec->steps;
+  std::vector<V> full_final = e.rec->finals;
   {
     RunState rs;
-    for (auto& r : full)
+    for (std::size_t i = 0; i < full.size(); ++i)
       {
-        emit_step(c, r, d0, 1, levelB, prior_nonzero, rs, sens0mask, defs);
+        emit_step(c, full[i], d0, 1, levelB, prior_nonzero, rs, sens0mask, defs, i < full_final.size() ? &full_final[i] : nullptr);
         ++n_steps;
+        // the next sub-iteration starts from the iterate end_of_iteration_processing left
+        if (i > 0)
+          {
+            ++oracle_checks;
+            if (!same_bits(full[i].before, full_final[i - 1]))
+              ofail("sub-iteration " + std::to_string(full[i].k) + " does not start from the previous iterate");
+          }
       }
     op("endrun", std::to_string(full.size()));
     ++oracle_checks;
-    if (static_cast<int>(full.size()) != c.nsubiter)
+    if (static_cast<int>(full.size()) != c.nsubiter || full_final.size() != full.size())
       ofail("number of sub-iterations performed " + std::to_string(full.size()) + " != " + std::to_string(c.nsubiter));
     else
-      for (int k = 1; k <= c.nsubiter; ++k)
-        {
-          // saved iterate == in-memory iterate
-          const std::string f = c.prefix + "_" + std::to_string(k) + ".hv";
-          ++oracle_checks;
-          if (!file_exists(f))
-            {
-              ofail("iterate " + std::to_string(k) + " was not saved");
-              continue;
-            }
-          if (!same_bits(flat(*read_from_file<T>(f)), full[k - 1].after))
-            ofail("saved iterate " + std::to_string(k) + " differs from the in-memory iterate");
-        }
+      check_saved(c, c.prefix, 1, full_final);
+    if (c.randomise)
+      check_permutations(c, full);
   }
-  if (static_cast<int>(full.size()) != c.nsubiter)
+  if (static_cast<int>(full.size()) != c.nsubiter || full_final.size() != full.size())
     return true;
 
+  // ---- a second reconstruct() on the same object WITHOUT set_up (the documented trap: D was modified);
+  //      right after the uninterrupted run: the model continues with the denominator that run left
+  if (restarts && c.id % 3 == 0)
+    {
+      shared_ptr<T> t2(b.img->get_empty_copy());
+      unflat(*t2, b.init);
+      e.rec->steps.clear();
+      e.rec->finals.clear();
+      e.rec->set_output_filename_prefix(c.prefix + "_rerun");
+      op("rerun 1 " + std::to_string(c.nsubiter), "ok");
+      try
+        {
+          std::srand(static_cast<unsigned>((c.data_seed + 31ULL) % 1000003ULL));
+          e.rec->reconstruct(t2);
+          RunState rs; // the property says nothing about this run: correspondence only
+          for (std::size_t i = 0; i < e.rec->steps.size(); ++i)
+            {
+              const StepRec& r = e.rec->steps[i];
+              if (!r.have_g)
+                continue;
+              op("step " + std::to_string(r.k) + " | " + hv(r.before) + " | " + hv(r.g) + " | " + (r.have_c ? hv(r.c) : std::string("-"))
+                     + (c.randomise ? " | " + std::to_string(r.subset) : std::string()),
+                 std::to_string(r.subset) + " | " + hv(r.after));
+              if ((c.filt || c.postfilt) && i < e.rec->finals.size())
+                op("endit " + std::to_string(r.k) + " | " + hv(r.after), hv(e.rec->finals[i]));
+            }
+          op("endrun", std::to_string(e.rec->steps.size()));
+          hist["rerun_without_setup"]++;
+        }
+      catch (...)
+        {
+          op("endrun", "exception");
+        }
+    }
+
   // ---- resume from every saved iterate with fresh objects
+  //      variant 0 / 1: enforce_initial_positivity off / on, denominator recomputed;
+  //      variant 2: `precomputed denominator := <the file the uninterrupted run's set_up wrote>`;
+  //      variant 3 (after sub-iteration 1 only): a user supplied denominator 2 D0 + 1 from file (no reproduction expected: correspondence
+  //                 and formula clauses with that denominator)
+  const std::string tchars = chars_of(*b.img);
   if (restarts)
     for (int k = 1; k < c.nsubiter; ++k)
-      for (int ep2 = 0; ep2 <= 1; ++ep2)
+      for (int variant = 0; variant <= 3; ++variant)
         {
-          const std::string pfx2 = c.prefix + "_r" + std::to_string(k) + "e" + std::to_string(ep2);
+          if (variant >= 2 && c.denom_ones)
+            continue;
+          if (variant == 3 && k != 1)
+            continue;
+          const int ep2 = variant == 1 ? 1 : 0;
+          const std::string pfx2 = c.prefix + "_r" + std::to_string(k) + "v" + std::to_string(variant);
           Engine e2 = make_engine(c, b, k + 1, ep2, pfx2);
+          std::string dfile;
+          V dfile_v;
+          std::string fchars;
+          if (variant == 2)
+            dfile = d0file;
+          else if (variant == 3)
+            {
+              shared_ptr<T> du(b.img->get_empty_copy());
+              V dv(d0.size());
+              for (std::size_t j = 0; j < d0.size(); ++j)
+                dv[j] = 2.F * d0[j] + 1.F;
+              unflat(*du, dv);
+              dfile = pfx2 + "_userdenominator";
+              write_to_file(dfile, *du);
+              dfile += ".hv";
+            }
+          if (variant >= 2)
+            {
+              shared_ptr<T> rd = read_from_file<T>(dfile);
+              dfile_v = flat(*rd);
+              fchars = chars_of(*rd);
+              e2.rec->use_denominator_file(dfile);
+            }
           shared_ptr<T> saved = read_from_file<T>(c.prefix + "_" + std::to_string(k) + ".hv");
           saved->set_exam_info(*b.ei);
           const V saved_v = flat(*saved);
@@ -1058,11 +1423,22 @@ run_case(Case c, bool levelB, bool restarts, bool expect_err)
           ++oracle_checks;
           if (!ok2)
             {
-              ofail("set_up of the resumed run failed at k=" + std::to_string(k));
+              ofail("set_up of the resumed run failed at k=" + std::to_string(k) + " variant " + std::to_string(variant));
               continue;
             }
           V d02;
-          if (c.denom_ones)
+          if (variant >= 2)
+            {
+              d02 = dfile_v;
+              op("setupf " + std::to_string(k + 1) + " " + std::to_string(c.nsubiter) + " " + std::to_string(ep2) + " | " + hv(saved_v) + " | "
+                     + tchars + " | " + fchars + " | " + hv(dfile_v),
+                 "ok | " + hv(flat(*saved)) + " | unobserved");
+              ++oracle_checks;
+              if (file_exists(pfx2 + "_precomputed_denominator.hv"))
+                ofail("a denominator was precomputed although `precomputed denominator` names a file");
+              hist[variant == 2 ? "resumes_with_saved_denominator_file" : "runs_with_user_denominator_file"]++;
+            }
+          else if (c.denom_ones)
             {
               d02.assign(saved_v.size(), 1.F);
               op("setup " + std::to_string(k + 1) + " " + std::to_string(c.nsubiter) + " " + std::to_string(ep2) + " | " + hv(saved_v),
@@ -1075,11 +1451,17 @@ run_case(Case c, bool levelB, bool restarts, bool expect_err)
                  "ok | " + hv(flat(*saved)) + " | " + hv(d02));
               op("d0sync | " + hv(d02), "ok");
             }
+          std::srand(static_cast<unsigned>((c.data_seed + 7919ULL * k) % 1000003ULL));
           e2.rec->reconstruct(saved);
           RunState rs;
-          for (auto& r : e2.rec->steps)
-            emit_step(c, r, d02, k + 1, false, prior_nonzero, rs, sens0mask, defs);
+          for (std::size_t i = 0; i < e2.rec->steps.size(); ++i)
+            emit_step(c, e2.rec->steps[i], d02, k + 1, false, prior_nonzero, rs, sens0mask, defs,
+                      i < e2.rec->finals.size() ? &e2.rec->finals[i] : nullptr);
           op("endrun", std::to_string(e2.rec->steps.size()));
+          if (c.randomise)
+            check_permutations(c, e2.rec->steps);
+          if (variant == 3)
+            continue;
           ++n_restarts;
           // ORACLE: resuming reproduces the uninterrupted run, bitwise
           bool all_positive = true, nonident_nonzero = false;
@@ -1090,18 +1472,25 @@ run_case(Case c, bool levelB, bool restarts, bool expect_err)
               if (sens0mask[j] != 0.F && saved_v[j] != 0.F)
                 nonident_nonzero = true;
             }
-          bool equal = static_cast<int>(e2.rec->steps.size()) == c.nsubiter - k;
+          bool equal = static_cast<int>(e2.rec->finals.size()) == c.nsubiter - k;
           int first_diff = -1;
           for (int m = 0; equal && m < c.nsubiter - k; ++m)
-            if (!same_bits(e2.rec->steps[m].after, full[k + m].after))
+            if (!same_bits(e2.rec->finals[m], full_final[k + m]))
               {
                 equal = false;
                 first_diff = k + 1 + m;
               }
           std::ostringstream ctx;
-          ctx << "seed-case " << c.id << " resume-after " << k << " ep " << ep2;
+          ctx << "seed-case " << c.id << " resume-after " << k << " variant " << variant;
           const std::string save_ctx = g_ctx;
           g_ctx = ctx.str();
+          if (c.randomise && c.nsub > 1)
+            {
+              // the random subset order is not part of the saved state (and seeded from the clock): nothing to reproduce
+              hist[equal ? "resume_equal_although_randomised" : "resume_differs_randomised_subset_order"]++;
+              g_ctx = save_ctx;
+              continue;
+            }
           ++oracle_checks;
           if (equal)
             ++n_restart_equal;
@@ -1123,33 +1512,61 @@ run_case(Case c, bool levelB, bool restarts, bool expect_err)
           g_ctx = save_ctx;
         }
 
-  // ---- a second reconstruct() on the same object WITHOUT set_up (the documented trap: D was modified)
-  if (restarts && c.id % 3 == 0)
-    {
-      shared_ptr<T> t2(b.img->get_empty_copy());
-      unflat(*t2, b.init);
-      e.rec->steps.clear();
-      e.rec->set_output_filename_prefix(c.prefix + "_rerun");
-      op("rerun 1 " + std::to_string(c.nsubiter), "ok");
-      try
-        {
-          e.rec->reconstruct(t2);
-          RunState rs; // the property says nothing about this run: correspondence only
-          for (auto& r : e.rec->steps)
-            {
-              if (!r.have_g)
-                continue;
-              op("step " + std::to_string(r.k) + " | " + hv(r.before) + " | " + hv(r.g) + " | " + (r.have_c ? hv(r.c) : std::string("-")),
-                 std::to_string(r.subset) + " | " + hv(r.after));
-            }
-          op("endrun", std::to_string(e.rec->steps.size()));
-          hist["rerun_without_setup"]++;
-        }
-      catch (...)
-        {
-          op("endrun", "exception");
-        }
-    }
+  // ---- `precomputed denominator := <file>` that set_up must refuse (or accept within has_same_characteristics' tolerances)
+  if (restarts && !c.denom_ones)
+    for (int rep = 0; rep < 2; ++rep)
+      {
+        const int kind = (c.id + 3 * rep) % 6;
+        const std::string pfx2 = c.prefix + "_f" + std::to_string(kind);
+        Engine e2 = make_engine(c, b, 1, 0, pfx2);
+        std::string dfile = pfx2 + "_denominator";
+        std::string fchars = "missing";
+        V dfile_v;
+        if (kind != 0)
+          {
+            // 1: one voxel more in x and y; 2: origin 0.5 mm off; 3: origin 0.004 mm off (inside the tolerance 0.01 mm);
+            // 4: voxels 1.5 times as large; 5: voxel size 2^-16 relative off (inside the tolerance 1e-4)
+            const int mn = -(c.nxy / 2);
+            const int nxy2 = c.nxy + (kind == 1 ? 1 : 0);
+            CartesianCoordinate3D<float> org = b.img->get_origin();
+            CartesianCoordinate3D<float> sp = b.img->get_grid_spacing();
+            if (kind == 2)
+              org[2] += 0.5F;
+            if (kind == 3)
+              org[3] += 0.00390625F;
+            if (kind == 4)
+              sp[2] *= 1.5F, sp[3] *= 1.5F;
+            if (kind == 5)
+              sp[2] *= 1.F + 1.52587890625e-5F, sp[3] *= 1.F + 1.52587890625e-5F;
+            VoxelsOnCartesianGrid<float> dimg(IndexRange3D(0, nz - 1, mn, mn + nxy2 - 1, mn, mn + nxy2 - 1), org, sp);
+            dimg.set_exam_info(*b.ei);
+            dimg.fill(1.F);
+            write_to_file(dfile, dimg);
+            dfile += ".hv";
+            shared_ptr<T> rd = read_from_file<T>(dfile);
+            dfile_v = flat(*rd);
+            fchars = chars_of(*rd);
+          }
+        else
+          dfile += "_does_not_exist.hv";
+        e2.rec->use_denominator_file(dfile);
+        shared_ptr<T> t2(b.img->get_empty_copy());
+        unflat(*t2, b.init);
+        bool ok2 = false;
+        try
+          {
+            ok2 = e2.rec->set_up(t2) == Succeeded::yes;
+          }
+        catch (...)
+          {}
+        op("setupf 1 " + std::to_string(c.nsubiter) + " 0 | " + hv(b.init) + " | " + tchars + " | " + fchars + " | " + (dfile_v.empty() ? std::string("-") : hv(dfile_v)),
+           ok2 ? "ok | " + hv(flat(*t2)) + " | unobserved" : std::string("err"));
+        hist[std::string("denominator_file_") + (ok2 ? "accepted" : "refused")]++;
+        // the property's side: a denominator that does not belong to the image grid (kinds 0,1,2,4) must not be used
+        ++oracle_checks;
+        if (ok2 && (kind == 0 || kind == 1 || kind == 2 || kind == 4))
+          ofail("set_up accepted a precomputed denominator file that does not match the image (kind " + std::to_string(kind) + ")");
+      }
 
   return true;
 }
@@ -1247,6 +1664,14 @@ main(int argc, char** argv)
       g.symswapseg = rng.coin();
       g.symswaps = rng.coin();
       g.symz = rng.coin();
+      // time of flight: geometry 2 always, others now and then (8 detectors, 5 TOF bins unmashed or 9 mashed by 3)
+      if (gidx == 2 || rng.range(0, 5) == 0)
+        {
+          g.ndet = 8;
+          g.ntang = 3;
+          g.tofbins = rng.coin() ? 5 : 9;
+          g.tofmash = g.tofbins == 9 ? 3 : 1;
+        }
       const int V_ = g.ndet / 2;
       // every number of subsets that STIR accepts for this geometry
       for (int ns = 1; ns <= V_; ++ns)
@@ -1279,6 +1704,33 @@ main(int argc, char** argv)
               c.weights_kind = c.prior ? rng.range(0, 3) : 0;
               c.additive = rng.coin();
               c.denom_ones = rng.range(0, 7) == 0 || (gidx == 1 && ns == 2 && var == 0);
+              // objective function: normalisation, zeroed end planes, subset sensitivities (TOF is a property of the geometry)
+              c.norm = rng.range(0, 2) != 0;
+              c.zero_ends = rng.range(0, 2) == 0;
+              c.subset_sens = rng.coin();
+              c.tofsens = c.tofbins > 0 && rng.coin();
+              // reconstruction: filters, randomised subset order
+              if (rng.range(0, 3) == 0)
+                {
+                  c.filt = rng.range(0, 3) == 0 ? 2 : 1;
+                  c.filt_interval = rng.range(1, 2);
+                }
+              if (rng.range(0, 5) == 0)
+                c.postfilt = rng.range(0, 2) == 0 ? 2 : 1;
+              c.randomise = ns > 1 && rng.range(0, 5) == 0;
+              // every run has at least one case of each new kind, whatever the seed
+              if (gidx == 0 && ns == 1 && var == 0)
+                c.norm = true, c.zero_ends = true, c.subset_sens = false;
+              if (gidx == 0 && ns == 2 && var == 1)
+                c.randomise = true;
+              if (gidx == 1 && ns == 1 && var == 0)
+                c.filt = 1, c.filt_interval = 1, c.postfilt = 1;
+              if (gidx == 2 && ns == 1 && var == 0)
+                c.norm = true, c.tofsens = false;
+              if (gidx == 2 && ns == 1 && var == 1)
+                c.tofsens = true, c.zero_ends = true;
+              if (gidx == 3 && ns == 1 && var == 0)
+                c.filt = 2, c.filt_interval = 2, c.postfilt = 0;
               c.data_seed = rng.next();
               c.prefix = dir + "/c" + std::to_string(c.id);
               const bool levelB = true;
